@@ -180,6 +180,74 @@ theorem init_inv (st : Static) : SInv st GState.init :=
 
 theorem runOps_inv (st : Static) (ops : List Op) : SInv st (runOps st ops) := foldl_step_inv st ops _ (init_inv st)
 
+/-! ### scans during which modules vanish (after the repair of F16) -/
+
+theorem sinv_present (st : Static) (g : GState) (p : List Mod) (h : SInv st g) : SInv st { g with present := p } := by
+  obtain ⟨nd, rd, mb, bo⟩ := h; exact ⟨nd, rd, mb, bo⟩
+
+theorem visitR_inv (st : Static) (g : GState) (m : Mod) (h : SInv st g) : SInv st (visitR st g m) := by
+  unfold visitR
+  split
+  · rename_i hp; exact visit_inv st g m hp h
+  · exact h
+
+theorem fold_visitR_inv (st : Static) (names : List Mod) (g : GState) (h : SInv st g) : SInv st (names.foldl (visitR st) g) := by
+  induction names generalizing g with
+  | nil => exact h
+  | cons m ms ih => exact ih _ (visitR_inv st g m h)
+
+theorem sinv_cache (st : Static) (g : GState) (c : Nat) (h : SInv st g) : SInv st { g with cache := c } := by
+  obtain ⟨nd, rd, mb, bo⟩ := h; exact ⟨nd, rd, mb, bo⟩
+
+theorem addGlueR_inv (st : Static) (g : GState) (gone : List Mod) (h : SInv st g) : SInv st (addGlueR st g gone) := by
+  unfold addGlueR
+  split
+  · obtain ⟨nd, rd, mb, bo⟩ := sinv_log_returned st _ (sinv_present st g (g.present.filter (fun m => !gone.contains m)) h)
+    exact ⟨nd, rd, mb, bo⟩
+  · have h0 := sinv_present st g (g.present.filter (fun m => !gone.contains m)) h
+    have h1 := fold_visitR_inv st g.present _ h0
+    obtain ⟨nd, rd, mb, bo⟩ := sinv_log_returned st _ (sinv_cache st _ _ h1)
+    exact ⟨nd, rd, mb, bo⟩
+
+theorem stepR_inv (st : Static) (g : GState) (op : OpR) (h : SInv st g) : SInv st (stepR st g op) := by
+  cases op with
+  | insert m => exact step_inv st g (.insert m) h
+  | remove m => exact step_inv st g (.remove m) h
+  | extract gone => exact addGlueR_inv st g gone h
+
+theorem runOpsR_inv (st : Static) (ops : List OpR) : SInv st (runOpsR st ops) := by
+  unfold runOpsR
+  have : ∀ (g : GState), SInv st g → SInv st (ops.foldl (stepR st) g) := by
+    induction ops with
+    | nil => intro g h; exact h
+    | cons op ops ih => intro g h; exact ih _ (stepR_inv st g op h)
+  exact this _ (init_inv st)
+
+/-- With nothing vanishing the new scan is the old one. -/
+theorem fold_visitR_eq (st : Static) (names : List Mod) (g : GState) (hn : ∀ m ∈ names, g.present.contains m = true) :
+    names.foldl (visitR st) g = names.foldl (visit st) g := by
+  induction names generalizing g with
+  | nil => rfl
+  | cons m ms ih =>
+    simp only [List.foldl_cons]
+    have hm : visitR st g m = visit st g m := by
+      have := hn m (by simp)
+      unfold visitR; rw [if_pos this]
+    rw [hm]
+    exact ih _ (by intro k hk; rw [(visit_present st g m).1]; exact hn k (by simp [hk]))
+
+theorem addGlueR_nil (st : Static) (g : GState) : addGlueR st g [] = addGlue st g := by
+  unfold addGlueR addGlue
+  split
+  · have hf : g.present.filter (fun m => !([] : List Mod).contains m) = g.present := by simp
+    rw [hf]
+  · have hf : g.present.filter (fun m => !([] : List Mod).contains m) = g.present := by simp
+    have hg : ({ g with present := g.present.filter (fun m => !([] : List Mod).contains m) } : GState) = g := by rw [hf]
+    simp only [hg]
+    have hall : (g.present.all fun m => g.present.contains m) = true := by simp
+    rw [fold_visitR_eq st g.present g (by intro m hm; simpa using hm)]
+    simp [hall]
+
 end SS.Glue
 
 namespace SS.Glue
